@@ -129,6 +129,10 @@ func (k *checker) runCase(e *env, slot int, stream string, idx int, st *stateKin
 	}
 	if why != "" {
 		d := base()
+		d["thread_id"] = cs.tid
+		if cs.dbg != nil {
+			_, _, _ = core.Guard(func() { d["status_now"] = fmt.Sprint(cs.dbg.Status()) })
+		}
 		d["dbg.beforewait_events"] = atomic.LoadInt64(&cs.before)
 		d["dbg.resumed_events"] = atomic.LoadInt64(&cs.resumed)
 		cs.release(e)
